@@ -79,4 +79,8 @@ theorem place_table :
     placeRows.all (fun (occ, k, outcome) => placeOutcome occ k == outcome) = true := by
   decide +kernel
 
+theorem resume_table :
+    resumeRows.all (fun (w, occ, pos, res) => canResume (mk (win w) (occCells occ)) 0 pos == res) = true := by
+  decide +kernel
+
 end OllamaVerif.Tie.C06
